@@ -17,10 +17,16 @@ Programs are expression trees (JSON):
   ["chunks", F, k, op|None]   file read with read_chunks(min_chunk_size=k), op applied to each chunk, chunks concatenated
   ["idx", e, op]              e[index];  op = ["slice",a,b,c] | ["mask",[..]] | ["ints",[..]] (list) | ["npints",[..]] (array)
   ["touch", e, field]         read-only access of a field (fills the lazy cache), table unchanged
+                              (["touch", e, field, "if-parsable"]: a parse error of the field is not a failure)
   ["mat", e]                  write e (checked) and go on with the same object (compaction happens in place)
   ["cat", [e1, e2, ...]]      np.concatenate
   ["rep", e, [fields]]        bnp.replace(e, field=new values ...)
   ["after", e1, e2]           evaluate and write e1 (checked), then evaluate e2: e1 must not disturb the tables it was derived from
+  ["set", e, [fields]]        attribute assignment e.field = new values on the table object e (in place; unlike bnp.replace it keeps
+                              the cache of the fields read before); only applied to freshly selected tables
+  ["hist", e, [step, ...]]    a history on ONE table object: e is evaluated once, then the steps are applied to that same object
+                              ["w"] write it (checked; compacts a selection in place) | ["t", field] read a field (fills the caches)
+                              | ["rw", [fields]] bnp.replace + write of the replaced copy (checked), the history goes on with e
 All ["read", F] nodes of one program denote the same table object (one read per file and program).
 """
 import itertools
@@ -577,7 +583,18 @@ def evaluate(cx, node):
         return t2, apply_model(rows, node[2]), exact
     if k == "touch":
         t, rows, exact = evaluate(cx, node[1])
-        real("touch", lambda: getattr(t, node[2]))
+        if len(node) > 3 and node[3] == "if-parsable":
+            # float columns: the source files hold spellings ('+2.5', '1E1') that the float parser does not accept; whether
+            # it should is not this property's business - the column then just stays out of the cache
+            from bionumpy.io.exceptions import FormatException, ParsingException
+            try:
+                getattr(t, node[2])
+            except (FormatException, ParsingException):
+                pass
+            except Exception as e:
+                raise EvalError("touch", e)
+        else:
+            real("touch", lambda: getattr(t, node[2]))
         return t, rows, exact
     if k == "mat":
         t, rows, exact = evaluate(cx, node[1])
@@ -591,17 +608,44 @@ def evaluate(cx, node):
         t, rows, exact = evaluate(cx, node[1])
         real("write", lambda: check_table(cx, t, rows, exact, cx_mixed(rows)))
         return evaluate(cx, node[2])
-    if k == "rep":
+    if k in ("rep", "set"):
         t, rows, exact = evaluate(cx, node[1])
-        kinds = dict(cx.spec["fields"])
-        cx.rep_count += 1
-        vals, texts = {}, {}
-        for f in node[2]:
-            vals[f], texts[f] = cx.new_values(f, kinds[f], rows)
-        t2 = real("replace", lambda: bnp.replace(t, **vals))
-        rows2 = [(f, i, dict(ov, **{name: texts[name][j] for name in node[2]})) for j, (f, i, ov) in enumerate(rows)]
+        t2, rows2 = _replaced(cx, real, t, rows, node[2], in_place=(k == "set"))
         return t2, rows2, False
+    if k == "hist":
+        t, rows, exact = evaluate(cx, node[1])
+        for step in node[2]:
+            if step[0] == "w":
+                real("write", lambda: check_table(cx, t, rows, exact, cx_mixed(rows)))
+            elif step[0] == "t":
+                real("touch", lambda: getattr(t, step[1]))
+            elif step[0] == "rw":
+                t2, rows2 = _replaced(cx, real, t, rows, step[1])
+                real("write", lambda: check_table(cx, t2, rows2, False, cx_mixed(rows2)))
+            else:
+                raise ValueError(step)
+        return t, rows, exact
     raise ValueError(node)
+
+
+def _replaced(cx, real, t, rows, fields, in_place=False):
+    """bnp.replace(t, field=new values ...) (or, in place, t.field = new values) -> (table, model rows)"""
+    import bionumpy as bnp
+    kinds = dict(cx.spec["fields"])
+    cx.rep_count += 1
+    vals, texts = {}, {}
+    for f in fields:
+        vals[f], texts[f] = cx.new_values(f, kinds[f], rows)
+    if in_place:
+        def assign():
+            for f in fields:
+                setattr(t, f, vals[f])
+            return t
+        t2 = real("assign", assign)
+    else:
+        t2 = real("replace", lambda: bnp.replace(t, **vals))
+    rows2 = [(f, i, dict(ov, **{name: texts[name][j] for name in fields})) for j, (f, i, ov) in enumerate(rows)]
+    return t2, rows2
 
 
 def n_nodes(e):
@@ -630,7 +674,13 @@ def replaced_fields(e):
         return set().union(*[replaced_fields(x) for x in e[1]])
     if e[0] == "after":
         return replaced_fields(e[1]) | replaced_fields(e[2])
-    return replaced_fields(e[1]) | (set(e[2]) if e[0] == "rep" else set())
+    if e[0] == "hist":
+        return replaced_fields(e[1]).union(*[set(st[1]) for st in e[2] if st[0] == "rw"])
+    return replaced_fields(e[1]) | (set(e[2]) if e[0] in ("rep", "set") else set())
+
+
+# groups (first component) whose failures get signatures of their own: <group>:<kind>:<format family>:<line ending>
+OWN_SIGNATURE_GROUPS = ("replace-with-cached-field", "selection-history")
 
 
 def run_program(cx, group, program):
@@ -652,6 +702,13 @@ def run_program(cx, group, program):
         except Exception as e:
             raise EvalError("write", e)
     except Violation as v:
+        if group.split(":")[0] in OWN_SIGNATURE_GROUPS:
+            g0 = group.split(":")[0]
+            if g0 == "replace-with-cached-field" and v.kind == "noncanonical-text-rewritten":
+                # a column that was read before is written from its parsed values: decided in the lazy table, the same
+                # for every format
+                return "%s:%s" % (g0, v.kind), v.message
+            return "%s:%s:%s:%s" % (g0, v.kind, fam, cx.eol), v.message
         if v.kind in ("crlf-newline-dropped", "crlf-rewritten-to-lf", "noncanonical-text-rewritten"):
             # bed / bed6 / narrowPeak / vcf share DelimitedBuffer._get_buffer_extractor
             return "passthrough:%s:%s" % (v.kind, "delimited" if fam == "vcf" else fam), v.message
@@ -661,6 +718,8 @@ def run_program(cx, group, program):
         msg = repr(e.exc)[:400]
         if e.where == "read":
             return "read:exception:%s:%s:%s" % (tname, fam, cx.eol), msg
+        if group.split(":")[0] in OWN_SIGNATURE_GROUPS:
+            return "%s:exception-in-%s:%s:%s:%s" % (group.split(":")[0], e.where, tname, fam, cx.eol), msg
         if e.where == "cat":
             if isinstance(e.exc, AssertionError) and "lazybnpdataclass" in msg and "bnpdataclass.bnpdataclass" in msg:
                 # an operand that is itself the result of a non-lazy concatenation, concatenated with a lazy table
@@ -906,6 +965,113 @@ def gen_isolation(spec, level, lazy_concat=True):
                 yield "isolation:concat-then-operand", ["after", ["rep", cat, fs], ["rep", ["idx", base, REV], fs]]
 
 
+def _touch_all(e, fields, kinds={}):
+    for g in fields:
+        e = ["touch", e, g] + (["if-parsable"] if kinds.get(g) == "float" else [])
+    return e
+
+
+def _free_fields(spec):
+    """fields that can be replaced / read on their own in every format variant (no sub-table columns, no 'solo' fields)"""
+    return [n for n, kind in spec["fields"] if kind is not None and n not in spec.get("solo", [])]
+
+
+def gen_cached(spec, level):
+    """a field is replaced (bnp.replace or attribute assignment) while OTHER fields of the same table - or of the table
+    it is selected from afterwards - have been read before and sit in the cache of the lazy table: the columns that
+    were not replaced must still be written with their source text (leading zeros, '+', '1e3' ...).  Every replaceable
+    field x (all other fields read | one other field read) x where the read happens relative to the replacement."""
+    free = _free_fields(spec)
+    kinds = dict(spec["fields"])
+    sels = [NEG, ["mask", [True, False, True, True]]] + ([S(1, None), REV] if level == 2 else [])
+    G = "replace-with-cached-field:"
+    for f in free:
+        others = [g for g in free if g != f]
+        if not others:
+            continue
+        yield G + "read-after-replace", _touch_all(["rep", A_, [f]], others, kinds)
+        yield G + "read-after-assign", _touch_all(["set", ["idx", A_, S(None, None)], [f]], others, kinds)
+        for op in sels:
+            yield G + "read-after-replace-then-select", ["idx", _touch_all(["rep", A_, [f]], others, kinds), op]
+            yield G + "select-read-assign", ["set", _touch_all(["idx", A_, op], others, kinds), [f]]
+            yield G + "select-read-replace", ["rep", _touch_all(["idx", A_, op], others, kinds), [f]]
+            yield G + "select-replace-select-read", _touch_all(["idx", ["rep", ["idx", A_, op], [f]], REV], others, kinds)
+            yield G + "select-replace-read-select", ["idx", _touch_all(["rep", ["idx", A_, op], [f]], others, kinds), REV]
+            yield G + "select-read-assign-select", ["idx", ["set", _touch_all(["idx", A_, op], others, kinds), [f]], S(1, None)]
+            # (group selection-history: the selection is compacted between the reads and the assignment)
+            yield "selection-history:read-write-assign", ["set", ["mat", _touch_all(["idx", A_, op], others, kinds)], [f]]
+        if level and len(others) > 1:
+            for g in others:        # exactly one other field in the cache
+                yield G + "read-after-replace", _touch_all(["rep", A_, [f]], [g], kinds)
+                yield G + "read-after-replace-then-select", ["idx", _touch_all(["rep", A_, [f]], [g], kinds), sels[1]]
+                yield G + "select-read-assign", ["set", _touch_all(["idx", A_, NEG], [g], kinds), [f]]
+    if level and len(free) >= 3:
+        # two fields replaced, the rest read; replaced one after the other with a read in between
+        for f, g in itertools.combinations(free, 2):
+            others = [h for h in free if h not in (f, g)]
+            yield G + "read-after-replace", _touch_all(["rep", A_, [f, g]], others, kinds)
+            yield G + "replace-read-replace", ["rep", _touch_all(["rep", ["idx", A_, NEG], [f]], others, kinds), [g]]
+            yield G + "assign-read-assign", ["set", _touch_all(["set", ["idx", A_, NEG], [f]], others, kinds), [g]]
+
+
+def history_alphabet(spec, n_touch, n_rep):
+    free = _free_fields(spec)
+    touch = list(spec["touch"])
+    ints = [n for n, kind in spec["fields"] if kind in ("int", "vcfpos")]
+    last = spec["fields"][-1][0]
+    # fields read: the last column / rest of line (its end is the end of the entry) first, then an integer column
+    t_fields = list(dict.fromkeys(([last] if (last in touch or last in free) else []) + ints[:1] + touch))[:n_touch]
+    r_sets = [[f] for f in dict.fromkeys(ints[-1:] + free[:1] + free[-1:])][:n_rep]
+    return [["w"]] + [["t", g] for g in t_fields] + [["rw", fs] for fs in r_sets], r_sets
+
+
+def _histories(alphabet, n):
+    for steps in itertools.product(alphabet, repeat=n):
+        if all(st[0] == "t" for st in steps):
+            continue    # reads only: that is select-after-field-access
+        yield [list(st) for st in steps]
+
+
+def gen_history(spec, level):
+    """write / read-field / replace-and-write sequences on ONE selection object (the selection is compacted in place by
+    the first unmodified write and the field offsets are re-based: whatever was derived from the offsets before must not
+    be used afterwards), closed by an unmodified write or by a replacement + write: 3 steps, 4 in the deep level"""
+    small, r_small = history_alphabet(spec, 2, 1)
+    if level == 0:
+        sels = [["idx", A_, NEG]]
+    elif level == 1:
+        sels = [["idx", A_, NEG], ["idx", A_, ["mask", [True, False, True, True]]]]
+    else:
+        sels = [["idx", A_, op] for op in (S(None, None, 2), ["mask", [True, False, True, True]], NEG, S(1, None))]
+        sels += [A_, ["idx", ["idx", A_, REV], S(1, None)]]
+    alphabet, r_sets = history_alphabet(spec, 3, 2) if level == 2 else (small, r_small)
+    for n_sel, sel in enumerate(sels):
+        for steps in _histories(alphabet, 2):
+            yield "selection-history:closed-by-write", ["hist", sel, steps]
+            for fs in r_sets:
+                yield "selection-history:closed-by-replace", ["rep", ["hist", sel, steps], fs]
+            if level:
+                # the history goes on in a table selected from the compacted one
+                yield "selection-history:then-select", ["rep", ["idx", ["hist", sel, steps], S(1, None)], r_sets[0]]
+        if level == 2 and n_sel < 3:
+            for steps in _histories(small, 3):
+                yield "selection-history:closed-by-write", ["hist", sel, steps]
+                yield "selection-history:closed-by-replace", ["rep", ["hist", sel, steps], r_small[0]]
+
+
+def gen_history_bam():
+    """BAM: no replacement; field reads and writes interleaved on one selection object, then a further selection"""
+    fields = ["name", "cigar_op", "quality"]
+    alphabet = [["w"]] + [["t", g] for g in fields]
+    for sel in (["idx", A_, NEG], ["idx", A_, ["mask", [True, False, True, True]]], ["idx", A_, S(1, None)]):
+        for steps in itertools.product(alphabet, repeat=3):
+            if ["w"] not in steps:
+                continue
+            e = ["hist", sel, [list(st) for st in steps]]
+            yield "selection-history:closed-by-write", e
+            yield "selection-history:then-select", ["idx", e, REV]
+
+
 def resolve_masks(e, cx):
     """["mask","alt"] placeholders (length known only from the model) -> concrete masks"""
     if not isinstance(e, list) or not e:
@@ -918,7 +1084,7 @@ def resolve_masks(e, cx):
         return ["cat", [resolve_masks(x, cx) for x in e[1]]]
     if e[0] == "after":
         return ["after", resolve_masks(e[1], cx), resolve_masks(e[2], cx)]
-    if e[0] in ("idx", "touch", "mat", "rep"):
+    if e[0] in ("idx", "touch", "mat", "rep", "set", "hist"):
         return [e[0], resolve_masks(e[1], cx)] + e[2:]
     return e
 
@@ -944,6 +1110,10 @@ def model_len(e, cx):
 QUICK_LEVEL = {"bed": 0, "bed6": 0, "narrowPeak": 1, "vcf": 0, "vcf_noinfo": 0, "vcf2": 0, "sam": 0, "fastq": 0, "fasta2": 0, "bam": 1}
 
 
+# level of gen_history in the quick tier: one representative per extractor class gets level 1
+QUICK_HISTORY_LEVEL = {"narrowPeak": 1, "vcf2": 1, "sam": 1, "fastq": 1, "fasta2": 1}
+
+
 THOROUGH_LEVEL = {"bed": 1, "bed6": 1, "narrowPeak": 2, "vcf": 1, "vcf_noinfo": 1, "vcf2": 2, "sam": 2, "fastq": 2, "fasta2": 2, "bam": 2}
 
 
@@ -955,7 +1125,10 @@ def programs(variant, tier, eol):
             level = 0
     else:
         level = QUICK_LEVEL.get(variant, 0) if eol == "lf" else 0
+    hist_level = (THOROUGH_LEVEL.get(variant, 1) if eol == "lf" else 1) if tier == "thorough" else \
+        (QUICK_HISTORY_LEVEL.get(variant, 0) if eol == "lf" else 0)
     if variant == "bam":
+        yield from gen_history_bam()
         yield from gen_select(level)
         yield from gen_access(spec, level)
         for op in core_ops(NA):
@@ -987,7 +1160,13 @@ def programs(variant, tier, eol):
                 yield "select-materialised", chain_expr(A_, ops, mat=True)
         yield "concat", ["cat", [["idx", A_, NEG], B_, ["idx", A_, S(1, None)]]]
         yield from gen_replace(spec, 0, 0)
+        yield from gen_history(spec, 0)
+        yield from gen_cached(spec, 0)
         return
+    # first, because they are few and the enumeration of a format is cut from the end when the machine is slow
+    yield from gen_history(spec, hist_level)
+    if eol == "lf" or tier == "thorough":
+        yield from gen_cached(spec, level if (tier == "thorough" and eol == "lf") else 0)
     yield from gen_select(level)
     if eol == "lf":
         yield from gen_access(spec, level)
@@ -1024,7 +1203,9 @@ RULE = ("exhaustive over expression trees of selections (slice / step / boolean 
         "negatives / integer array / one-row selections / empty selections; intermediate tables optionally written), "
         "concatenations (2 and 3 operands, nested, operands from two files of different size, from chunked reads, empty "
         "operands) and field replacements (every single field, every pair, triples, all; before / after / between "
-        "selections and concatenations) per format and line ending; a case is one (format, line ending, program); distinct = "
+        "selections and concatenations; with other fields read before / after the replacement or attribute assignment, all "
+        "others or exactly one), histories of writes / field reads / replace-and-write on one selection object (3-4 steps) "
+        "per format and line ending; a case is one (format, line ending, program); distinct = "
         "distinct (format, line ending, program); every case except the bare read is non-trivial")
 
 
@@ -1041,6 +1222,12 @@ def run(tier="quick", seed=0):
                   "concat_operands": "2 (18x18 pool), 3 and nested (6^3 pool), select-select-concat (64 chains)",
                   "replaced_fields": "every subset of size 1 and 2 of the replaceable fields, triples (every 7th; thorough: all), all fields",
                   "chunk_sizes": "quick 4 sizes, thorough 10 sizes per format",
+                  "replace_with_cached_field": "every replaceable field x (all other fields read; standard level and above: also each "
+                                               "single other field) x 9 orders of select / read / replace|assign / write; 2 selections "
+                                               "(deep: 4); standard level and above: every pair of fields replaced with a read in between",
+                  "selection_history": "steps {write, read field (2; deep 3), replace+write (1; deep 2)}: all sequences of 2 steps (deep: "
+                                       "also of 3 steps on 3 selections) that are not reads only, closed by a write or a replacement + write, "
+                                       "on 1 / 2 / 6 selections (reduced / standard / deep); BAM: write / read sequences of 3 steps on 3 selections",
                   "levels (0 reduced, 1 standard, 2 deep)": "quick: %r for lf, 0 for crlf (6 representative formats); thorough: %r for lf, 1 for crlf"
                   % (QUICK_LEVEL, THOROUGH_LEVEL)}
     warnings.filterwarnings("ignore")
